@@ -99,6 +99,11 @@ func (g *chainGen) emit(e ev) {
 	fmt.Fprintf(g.w, "%s h=%d\n", verb, e.h)
 }
 
+// junkSame: unauthenticated P2P data naming height h that COPIES the genuine transactions (genuine commitment) under a wrong time
+func (g *chainGen) junkSame(h uint64) {
+	fmt.Fprintf(g.w, "junkdat h=%d same=1\n", h)
+}
+
 // junk: unauthenticated P2P data naming height h (genuine chain id / height / time) with transactions no block holds
 func (g *chainGen) junk(h uint64) {
 	g.seq++
@@ -151,8 +156,24 @@ func GenC02(r *hx.Rng, tier string, w io.Writer) {
 	g.junk(4)
 	g.emit(ev{true, 4})
 	g.junk(4)
-	// (d) what remains (recorded finding): the genuine data is cached and marked seen, a junk item replaces it, the header
-	// arrives (the junk is dropped), every later delivery of the genuine data is dropped as already seen
+	// (c') junk that copies the genuine transactions of a block (same data commitment) under a wrong time, before and after the
+	// header: it must not make the genuine data count as already seen (repaired by /repo c3c43a6)
+	g.reset(1)
+	g.produce(1)
+	g.produce(1)
+	g.produce(1)
+	g.emit(ev{false, 1})
+	g.junkSame(2)
+	g.emit(ev{false, 2})
+	g.emit(ev{true, 2})
+	g.emit(ev{false, 3})
+	g.junkSame(3)
+	g.junkSame(4)
+	g.emit(ev{true, 3})
+	g.emit(ev{true, 4})
+	g.emit(ev{false, 4})
+	// (d) what remains (recorded finding): the genuine data is cached, a junk item replaces it, the header arrives (the junk is
+	// dropped): the node stays behind until the genuine data is delivered again (then it recovers)
 	g.reset(1)
 	g.produce(1)
 	g.produce(1)
@@ -279,7 +300,11 @@ func GenC02(r *hx.Rng, tier string, w io.Writer) {
 			if junky && r.Chance(25) {
 				h := g.ih + uint64(r.Intn(int(g.n)+2))
 				if !datSeen[h] {
-					g.junk(h)
+					if r.Chance(40) {
+						g.junkSame(h)
+					} else {
+						g.junk(h)
+					}
 				}
 			}
 			g.emit(e)
